@@ -276,6 +276,9 @@ func (it *indexedMessageIterator) loadChunk(chunkIndex *ChunkIndex) error {
 	}
 	switch CompressionFormat(parsedChunk.Compression) {
 	case CompressionNone:
+		if uint64(len(parsedChunk.Records)) != bufSize {
+			return fmt.Errorf("chunk holds %d bytes of records, expected %d", len(parsedChunk.Records), bufSize)
+		}
 		copy(chunkSlot.buf, parsedChunk.Records)
 	case CompressionZSTD:
 		if it.zstdDecoder == nil {
@@ -287,6 +290,9 @@ func (it *indexedMessageIterator) loadChunk(chunkIndex *ChunkIndex) error {
 		chunkSlot.buf, err = it.zstdDecoder.DecodeAll(parsedChunk.Records, chunkSlot.buf[:0])
 		if err != nil {
 			return fmt.Errorf("failed to decode chunk data: %w", err)
+		}
+		if uint64(len(chunkSlot.buf)) != bufSize {
+			return fmt.Errorf("chunk decompressed to %d bytes, expected %d", len(chunkSlot.buf), bufSize)
 		}
 	case CompressionLZ4:
 		if it.lz4Reader == nil {
